@@ -60,13 +60,29 @@ def run_group(arg):
         tree = build_tree(strs, r)
         with core.Scratch("c16") as work:
             root = os.path.join(work, "in")
-            gentree.materialise_dir(tree, root)
             i1 = os.path.join(work, "i1.sqfs")
-            d = {"mode": tree[b""].mode, "uid": tree[b""].uid, "gid": tree[b""].gid}
-            res = core.run_tool([B["gensquashfs"], "-q", "-c", "gzip", "-D", root, "-d", "mode=0%o,uid=%d,gid=%d" % (d["mode"], d["uid"], d["gid"]), i1], timeout=300)
-            if res.rc != 0:
-                oc.inconclusive.append("building I1 failed: %s" % res.err[-200:])
-                return oc
+            if sig.startswith("numeric-limits"):
+                # I1 from the independent writer: largest and smallest values of every numeric column of the listing
+                # (a real directory cannot carry uid 4294967295, and a pack file would go through the parser under test)
+                tree = {b"": Node("dir", 0o7777 if idx % 2 else 0o755, uid=0xFFFFFFFF if idx % 2 else 0, gid=0xFFFFFFFF if idx % 3 == 0 else 0)}
+                vals = [0, 1, 0x7FFFFFFF, 0x80000000, 0xFFFFFFFE, 0xFFFFFFFF, 65535, 65536]
+                for i, (m, u) in enumerate(itertools.product([0o7777, 0o0, 0o4000, 0o2000, 0o1000, 0o777], vals)):
+                    tree[b"f%03d" % i] = Node("file", m, uid=u, gid=vals[(i * 3) % len(vals)], data=[("bytes", b"%d" % i)])
+                    if i % 5 == 0:
+                        tree[b"d%03d" % i] = Node("dir", m, uid=vals[(i + 1) % len(vals)], gid=u)
+                    if i % 7 == 0:
+                        tree[b"n%03d" % i] = Node("cdev" if i % 2 else "bdev", m, uid=u, gid=u, dev=((4095, 0, 255)[i % 3], (0xFFFFF, 0, 255)[i % 3]))
+                        tree[b"p%03d" % i] = Node("fifo", m, uid=u, gid=0xFFFFFFFF)
+                with open(i1, "wb") as f:
+                    f.write(sqfsimg.build_image(tree)[0])
+                oc.inc("writer_built_images")
+            else:
+                gentree.materialise_dir(tree, root)
+                d = {"mode": tree[b""].mode, "uid": tree[b""].uid, "gid": tree[b""].gid}
+                res = core.run_tool([B["gensquashfs"], "-q", "-c", "gzip", "-D", root, "-d", "mode=0%o,uid=%d,gid=%d" % (d["mode"], d["uid"], d["gid"]), i1], timeout=300)
+                if res.rc != 0:
+                    oc.inconclusive.append("building I1 failed: %s" % res.err[-200:])
+                    return oc
             # unpack root: plain or with special characters
             if variant == "unpack-root-special":
                 rname = (strs[idx % len(strs)] + b"R").replace(b"/", b"_")
@@ -125,7 +141,7 @@ def main(tier):
     rep = core.Report(PROP, tier, "exploration",
                       "strings over {letter, space, tab, \", \\, ', #, =, -, 0x80, 0xFF, CR}: every string up to length 2 (quick) / 3 (thorough) plus random longer ones, used as file, directory, "
                       "symlink, device, fifo and socket names (first/middle/last position), as symlink targets and as unpack-root names; I1 is built by --pack-dir (so the only pack-file parser under test "
-                      "is the one consuming describe output), described with and without -p, rebuilt with gensquashfs -F and compared through the independent parser; "
+                      "is the one consuming describe output; a few images with the extreme values of every numeric column come from the independent writer), described with and without -p, rebuilt with gensquashfs -F and compared through the independent parser; "
                       "groups = character-class signatures; distinct = (signature, variant)")
     build.build("asan")
     maxlen = 2 if tier == "quick" else 3
@@ -146,10 +162,12 @@ def main(tier):
                 items.append((sig, chunk, variant, k + vi, tier))
     for k in range(6 if tier == "quick" else 24):
         items.append(("big-listing-%d" % k, [], ("plain", "unpack-root")[k % 2], k, tier))
+    for k in range(4 if tier == "quick" else 12):
+        items.append(("numeric-limits-%d" % k, [b"a"], ("plain", "unpack-root")[k % 2], k, tier))
     for oc in core.pmap(run_group, items):
         rep.add(oc)
     rep.extra["strings_total"] = len(allstr)
     rep.extra["signatures"] = len(groups)
     rep.extra["exhaustive_up_to_length"] = maxlen
-    rep.required_nonzero = ["describe_runs", "rebuild_runs", "entries_compared"]
+    rep.required_nonzero = ["describe_runs", "rebuild_runs", "entries_compared", "writer_built_images"]
     return rep.finish()
